@@ -43,7 +43,7 @@ NCLS = 4
 
 
 def bounds(tier):
-    return {"quick": "pool of 4 classes, arbitrary symbolic pre-table, replacement lists of length 0..3 (symbolic class per position), three mutators; label/recovery scenarios: 6 symbolic replacement scenarios x up to 5 batches",
+    return {"quick": "pool of 4 classes, arbitrary symbolic pre-table, replacement lists of length 0..3 (symbolic class per position), three mutators; constructor base case for every line-up of length 1..3; label/recovery scenarios: 12 symbolic replacement scenarios",
             "thorough": "same with lists up to length 4 and 10 scenarios"}[tier]
 
 
@@ -162,6 +162,34 @@ def case_step(mutator, L):
     return Case(name, body, replay, split=3 if L >= 3 else 0)
 
 
+def case_construct(L):
+    """Base case of the induction: the table built by the constructor satisfies the representation invariant."""
+    name = f"construct-len{L}"
+
+    def body(ctx):
+        seq = [int(ctx.int(f"cls{p}", 0, NCLS - 1)) for p in range(L)]
+        c = _calibrator([CLASSES[k](1) for k in seq])
+        tab = c.samplers_id_table
+        first_seen = []
+        for k in seq:
+            if CLASSES[k].__name__ not in first_seen:
+                first_seen.append(CLASSES[k].__name__)
+        exp = {nm: i for i, nm in enumerate(first_seen)}
+        ctx.prove(z3.BoolVal(dict(tab) == exp), "new_ids_fresh_contiguous", f"constructor table for {[CLASSES[k].__name__ for k in seq]}: {dict(tab)}, expected {exp}")
+
+    def replay(cex):
+        seq = [int(cex.values.get(f"cls{p}") or 0) for p in range(L)]
+        c = _calibrator([CLASSES[k](1) for k in seq])
+        first_seen = []
+        for k in seq:
+            if CLASSES[k].__name__ not in first_seen:
+                first_seen.append(CLASSES[k].__name__)
+        exp = {nm: i for i, nm in enumerate(first_seen)}
+        return dict(c.samplers_id_table) != exp, f"Calibrator(samplers={[CLASSES[k].__name__ for k in seq]}).samplers_id_table = {c.samplers_id_table}; ids must be 0..m-1 in first-seen order: {exp}"
+
+    return Case(name, body, replay)
+
+
 # ---- label + recovery scenarios --------------------------------------------------------------------------
 SCENARIOS = [
     # (initial classes, [(n_batches, replacement or None)...]) replacement = ("set_samplers"|"set_scheduler", [class indices])
@@ -175,6 +203,8 @@ SCENARIOS = [
     ([0, 1], [(2, ("set_scheduler", [1, 0])), (2, None)]),
     ([2, 1, 0], [(3, None), (1, ("set_samplers", [0, 1, 2])), (3, None)]),
     ([0, 0, 1], [(3, ("set_samplers", [1, 1, 0])), (3, None)]),
+    ([0, 0, 1], [(3, ("set_samplers", [2])), (2, None)]),
+    ([1, 1, 0, 1], [(4, ("set_scheduler", [3, 2])), (2, None)]),
 ]
 
 
@@ -301,7 +331,9 @@ def cases(tier, seed):
     for mut in ("update", "set_samplers", "set_scheduler"):
         for L in range(1 if mut == "set_scheduler" else 0, maxL + 1):
             cs.append(case_step(mut, L))
-    cs.append(case_labels(6 if tier == "quick" else len(SCENARIOS)))
+    for L in range(1, maxL + 1):
+        cs.append(case_construct(L))
+    cs.append(case_labels(len(SCENARIOS)))
     return cs
 
 
